@@ -674,6 +674,9 @@ pub fn main(ctx: &Ctx, prop: Prop) -> ! {
     if prop == Prop::C04 || prop == Prop::C05 {
         xml_runs = crate::c04::xml_jobs(ctx, prop, &stats);
     }
+    if prop == Prop::C05 {
+        xml_runs += crate::c16::contract_sweep(ctx);
+    }
     let mut direct = (0u64, 0u64, true, 0usize);
     if prop == Prop::C20 {
         direct = crate::c20::direct(ctx);
